@@ -45,7 +45,7 @@ func runWSDeadline(c *core.Ctx) {
 				if !an.Feasible(p) {
 					continue
 				}
-				for _, dc := range deadlineCases(fn, ctxArg, p, nil, 0) {
+				for _, dc := range deadlineCases(fn, ctxArg, p, call.Block(), nil, 0) {
 					if dc.timed {
 						nTimed++
 						continue
@@ -105,17 +105,19 @@ type deadlineCase struct {
 // timed; a context produced by a module helper (`ctx, cancel :=
 // relay.withSendTimeout(ctx)`) is whatever the helper's return paths make it,
 // with the helper's own branch conditions added.
-func deadlineCases(fn *ssa.Function, v ssa.Value, p an.Path, in *ssa.CallCommon, depth int) []deadlineCase {
+func deadlineCases(fn *ssa.Function, v ssa.Value, p an.Path, at *ssa.BasicBlock, in *ssa.CallCommon, depth int) []deadlineCase {
 	pathOf := func(x ssa.Value) string {
 		if in != nil {
 			return an.PathOfIn(x, in)
 		}
 		return an.PathOf(x)
 	}
-	var conds []string
-	for _, cd := range p.Conds() {
-		conds = append(conds, pathOf(cd.V))
-	}
+	// the conditions that select this way of getting the context: those that control
+	// the place where the choice is made — the operation's own block, or, when the context
+	// was chosen into a variable first, the block the chosen phi edge comes from. (Branches
+	// taken earlier for unrelated reasons do not select anything.)
+	sel := at
+	var selEdgeTo *ssa.BasicBlock
 	for i := 0; i < 8; i++ {
 		ph, ok := v.(*ssa.Phi)
 		if !ok {
@@ -132,6 +134,21 @@ func deadlineCases(fn *ssa.Function, v ssa.Value, p an.Path, in *ssa.CallCommon,
 			break
 		}
 		v = next
+		sel, selEdgeTo = pred, ph.Block()
+	}
+	var conds []string
+	onPath := map[*ssa.BasicBlock]bool{}
+	for _, b := range p {
+		onPath[b] = true
+	}
+	if sel != nil {
+		for _, g := range an.Guards(fn, sel) {
+			conds = append(conds, pathOf(g.V))
+		}
+		// … and the branch at the end of that block, if the choice is made by its edge
+		if iff, isIf := an.LastInstr(sel).(*ssa.If); isIf && selEdgeTo != nil && len(sel.Succs) == 2 && sel.Succs[0] != sel.Succs[1] {
+			conds = append(conds, pathOf(iff.Cond))
+		}
 	}
 	if vp := pathOf(v); strings.Contains(vp, "call:context.WithTimeout(") && strings.Contains(vp, ".SendTimeout") {
 		return []deadlineCase{{timed: true, conds: conds}}
@@ -150,7 +167,7 @@ func deadlineCases(fn *ssa.Function, v ssa.Value, p an.Path, in *ssa.CallCommon,
 						if !an.Feasible(q) {
 							continue
 						}
-						for _, dc := range deadlineCases(g, rv[0], q, &hc.Call, depth+1) {
+						for _, dc := range deadlineCases(g, rv[0], q, rb, &hc.Call, depth+1) {
 							dc.conds = append(append([]string(nil), conds...), dc.conds...)
 							out = append(out, dc)
 						}
